@@ -112,6 +112,11 @@ RAW_FAMILY = [
     ("{{ ('<b>'|safe|string)[i:] is escaped }}|{{ ('a'|safe ~ 'b') is escaped }}", {"i": 0}),
     ("{{ (range(3)|list)[i] }}|{{ range(3)[i] }}|{{ (1, 2)|list|first + i }}", {"i": 1}),
     ("{{ [1.5, 2]|sum + i }}|{{ (3 / 2)|round(i) }}|{{ [3, 1]|sort|first * i }}", {"i": 1}),
+    # constants that have no literal spelling of their own: nan, +-inf, -0.0, huge ints, complex-free forms
+    ("{{ 'nan'|float|int(d) }}|{{ 'NaN'|float|round(p) }}|{% set x = ' nan '|float %}{{ x }}|{{ ('-nan'|float) == ('nan'|float) }}", {"d": 7, "p": 1}),
+    ("{{ 'inf'|float > i }}|{{ ('-inf'|float)|abs|string ~ s }}|{% set y = 'Infinity'|float %}{{ y }}|{{ ('inf'|float)|int(d) }}", {"i": 1, "s": "!", "d": 7}),
+    ("{{ (1e308 * 10) > i }}|{{ (-1e308 * 10) < i }}|{{ ((1e308 * 10) - (1e308 * 10))|string ~ s }}", {"i": 1, "s": "!"}),
+    ("{{ (-0.0)|string ~ s }}|{{ (0 * -1.0)|string ~ s }}|{{ (2 ** 200) % i }}|{{ (10 ** 30) // i }}", {"i": 7, "s": "!"}),
 ]
 
 
